@@ -42,8 +42,10 @@ RULE = ('history = up to 6 constant definitions (gin.constant over modules {a,b,
         'gin.finalize(). Non-trivial = a checked macro use precedes a definition of that macro, '
         'or a later parse redefines an already used macro, or >=2 constants share a suffix and a '
         'constant was used or an ambiguous suffix was rejected. Distinct = distinct case JSON. '
-        'Sweep: every ordered pair of constant names over {a,b,c} depth<=3 (quick: depth<=2 first '
-        'name), all suffix queries.')
+        'Sweeps: every ordered pair of constant names over {a,b,c} depth<=3 (quick: depth<=2 first '
+        'name) with all suffix queries; one reference (%n, @n/gin.macro(), @n/gin.macro) in each '
+        'of 9 placements (bare, list, tuple, dict value, dict key, tuple inside a key, three '
+        'levels deep) x holder (probe binding, macro value) x n bound or not.')
 ASSUMPTIONS = [
     'macro names are chosen so that no macro name is a scope prefix of another (%a/b with only '
     '`a` bound inherits a through scoping; the property does not say what that means for macros)',
@@ -780,4 +782,37 @@ def _sweep_pairs(tier):
   return cases, True
 
 
-SWEEPS = {'constant-name-pairs': _sweep_pairs}
+def _sweep_placements(tier):
+  """One reference to macro n in every placement, from a probe binding and from a macro value."""
+  del tier
+  shapes = [
+      lambda c: c,
+      lambda c: ['list', [['i', 1], c]],
+      lambda c: ['tuple', [c]],
+      lambda c: ['dict', [['x', c]]],
+      lambda c: ['dictk', c, ['i', 0]],
+      lambda c: ['dictk', ['tuple', [c, ['i', 1]]], ['i', 0]],
+      lambda c: ['list', [['dict', [['x', ['tuple', [c]]]]]]],
+      lambda c: ['dict', [['x', ['dictk', c, ['none']]]]],
+      lambda c: ['list', [['dictk', ['tuple', [['tuple', [c]]]], ['list', []]]]],
+  ]
+  cases = []
+  for shape in shapes:
+    for kind in ('mac', 'macx', 'unev'):
+      for holder in ('probe', 'macro'):
+        for bound in ((True,) if kind == 'unev' else (False, True)):
+          if holder == 'probe':
+            stmts = [['use', 0, 0, shape([kind, 1])]]
+          else:
+            stmts = [['def', 0, shape([kind, 0])], ['use', 1, 1, ['mac', 0]]]
+          parses = [{'via': 'str', 'stmts': stmts, 'cut': [0, 0], 'observe': False,
+                     'ambig': None}]
+          if bound:
+            parses.append({'via': 'str', 'stmts': [['def', 1, ['i', 5]]], 'cut': [0, 0],
+                           'observe': False, 'ambig': None})
+          cases.append({'macros': ['m', 'n'], 'consts': [], 'parses': parses, 'sweep': True,
+                        'unev': True, 'close': None, 'finalize': True})
+  return cases, True
+
+
+SWEEPS = {'constant-name-pairs': _sweep_pairs, 'reference-placements': _sweep_placements}
